@@ -9,6 +9,7 @@ package props
 // Concurrent part: c17c.go.
 
 import (
+	"unsafe"
 	"encoding/json"
 	"fmt"
 	"math"
@@ -59,7 +60,57 @@ type c17Inst struct {
 
 func (in *c17Inst) SetReplay(b bool) { in.replay = b }
 
+// c17HashBoundaryKeys finds (once per process, with the real container) int keys whose home slot is the
+// LAST slot of a block page of the 10-block linear-probe table: the first of them lands there, the others
+// continue the probe run in slot 0, 1, ... of the NEXT block page. Where a key lands is read through the
+// block page API; the verdicts stay with the model.
+var c17HashBoundary []any
+
+func c17HashBoundaryKeys() []any {
+	if c17HashBoundary != nil {
+		return c17HashBoundary
+	}
+	in := newC17(c17Params{Kind: "hash", KeyT: "int", Seed: "empty", Levels: "all1"})
+	defer in.Close()
+	hidx := in.idx.(*index.LinearProbeHashTableIndex)
+	hp := in.bpm.FetchPage(hidx.GetHeaderPageID())
+	header := (*page.HashTableHeaderPage)(unsafe.Pointer(hp.Data()))
+	nb := int(header.NumBlocks())
+	var blocks []*page.HashTableBlockPage
+	for b := 0; b < nb; b++ {
+		bp := in.bpm.FetchPage(header.GetBlockPageID(uint64(b)))
+		blocks = append(blocks, (*page.HashTableBlockPage)(unsafe.Pointer(bp.Data())))
+	}
+	last := uint64(page.BlockArraySize - 1)
+	byBlock := map[int][]any{}
+	rid := page.RID{PageID: 1, SlotNum: 0}
+	for k := int32(0); k < 400000; k++ {
+		in.idx.InsertEntry(in.tup(k), rid, nil)
+		for b := 0; b < nb; b++ {
+			if blocks[b].IsReadable(last) {
+				byBlock[b] = append(byBlock[b], k)
+				if len(byBlock[b]) == 3 {
+					c17HashBoundary = byBlock[b]
+				}
+			}
+		}
+		in.idx.DeleteEntry(in.tup(k), rid, nil)
+		if c17HashBoundary != nil {
+			break
+		}
+	}
+	if c17HashBoundary == nil {
+		panic("no three keys with a home in the last slot of one block page found")
+	}
+	return c17HashBoundary
+}
+
 func c17Keys(p c17Params) []any {
+	if p.Seed == "boundary" {
+		// hash index: three keys that collide in the last slot of a block page (the probe run continues in
+		// the next block page) and two ordinary ones
+		return append(append([]any{}, c17HashBoundaryKeys()...), int32(-1), int32(7))
+	}
 	if p.Seed == "multi" {
 		// keys before, inside (between two filler keys) and after the 700 filler keys that span several nodes
 		if p.KeyT == "int" {
@@ -191,6 +242,15 @@ func (in *c17Inst) has(k any, r page.RID) int {
 	return -1
 }
 
+func (in *c17Inst) ridInUse(r page.RID) bool {
+	for _, e := range in.ents {
+		if e.rid == r {
+			return true
+		}
+	}
+	return false
+}
+
 func (in *c17Inst) hasKey(k any) bool {
 	for _, e := range in.ents {
 		if c, ok := cmpVal(e.k, k); ok && c == 0 {
@@ -207,6 +267,11 @@ func (in *c17Inst) Enabled() []string {
 			if in.has(k, r) < 0 {
 				if in.p.Kind == "uniq" && in.hasKey(k) {
 					continue // one row id per key (caller contract of the unique index)
+				}
+				if in.p.Kind == "hash" && in.ridInUse(r) {
+					// a row has one value in the indexed column: a row id is stored under one key at a time (the
+					// linear-probe table identifies an entry by its row id while it walks a probe run)
+					continue
 				}
 				ops = append(ops, fmt.Sprintf("Ins(%d,%d)", ki, ri))
 			} else {
@@ -511,6 +576,8 @@ func c17Configs(thorough bool) []c17Params {
 	if thorough {
 		depth = 4
 	}
+	// linear-probe table: a probe run that crosses from the last slot of one block page into the next page
+	out = append(out, c17Params{Kind: "hash", KeyT: "int", Seed: "boundary", Levels: "all1", Depth: depth + 1})
 	for _, kind := range []string{"skip", "uniq", "btree"} {
 		for _, kt := range []string{"int", "float"} {
 			// several nodes of fixed-size keys; the 700-key seed makes each replay expensive: depth 2 (thorough 3)
